@@ -179,6 +179,10 @@ def check(ctx):
         ctx.ob("R3", "Clone/" + ty.split("::")[-1], ok,
                "Clone for %s must be the field-wise clone (derived, or written by hand with every field cloned from the "
                "same field)" % ty, cl[0]["span"] if cl else None, what="clone-not-fieldwise")
+    # an evaluation never depends on the target's previous contents only if it always happens: the phase table hands a frame
+    # to every evaluation of a timeline with keyframes (None only for an empty one) (C10/R1)
+    from rules import c10
+    c10.rules_prepare_frame(ctx, "R6")
     c12.check_wrapping(ctx, F, "R3")
     rule_override(ctx, F, "R4")
     c12.check_loop_method(ctx, F, "R4", "start_with", mutable=True)
